@@ -33,6 +33,7 @@ const (
 	VPContBrDone
 	VPContBrKill
 	VPContBrExit
+	VPHostCallerRecv
 )
 
 const (
@@ -53,6 +54,8 @@ const (
 	vpContBrDone   = VPContBrDone
 	vpContBrKill   = VPContBrKill
 	vpContBrExit   = VPContBrExit
+
+	vpHostCallerRecv = VPHostCallerRecv
 )
 
 // Reply kinds reported by message points.
